@@ -26,7 +26,7 @@ func bnZero(c *Ctx, a *flAgg) {
 	total, proved := 0, 0
 	for _, pn := range []string{"stack", "internal", "stack/webstack"} {
 		for _, f := range c.L.SrcFuncs(pn) {
-			if f.Name() == "scan" && f.Signature.Recv() != nil {
+			if smCovers(f) {
 				continue // SM-deref
 			}
 			an := &bnAn{c: c, fn: f}
@@ -444,7 +444,7 @@ func bnUpper(c *Ctx, a *flAgg) {
 	total, own, inScope, proved := 0, 0, 0, 0
 	for _, pn := range []string{"stack", "internal", "stack/webstack"} {
 		for _, f := range c.L.SrcFuncs(pn) {
-			if f.Name() == "scan" && f.Signature.Recv() != nil {
+			if smCovers(f) {
 				continue
 			}
 			an := &bnAn{c: c, fn: f}
